@@ -70,6 +70,9 @@ func TestMain(m *testing.M) {
 				return runQuiet(q.Proto, time.Duration(q.QuietS*float64(time.Second)))
 			})
 		}
+		if rp.Phase == "shared_domain" || rp.Phase == "race_shared_domain" {
+			ev.RunReplay(rp, runShared)
+		}
 		if rp.Phase == "stop_after_failed_start" {
 			ev.RunReplay(rp, runFailStart)
 		}
@@ -740,7 +743,140 @@ func runMany(c Many) *ev.Failure {
 	return nil
 }
 
+// runShared: two udp exporters share an observation domain and a template id. A sends the
+// template and then large data sets back to back; B keeps re-announcing the same id, alternately
+// with a definition the strict collector must refuse (which removes the stored template) and with
+// the valid one. Whatever interleaving results: no crash, no data race, and every data message that
+// is delivered carries exactly the records that were sent.
+func runShared(rounds int) *ev.Failure {
+	cp, err := collector.InitCollectingProcess(collector.CollectorInput{Address: "127.0.0.1:0", Protocol: "udp", MaxBufferSize: 65535, TemplateTTL: 3600})
+	if err != nil {
+		return ev.Failf("InitCollectingProcess: %v", err)
+	}
+	go cp.Start()
+	for i := 0; i < 3000 && cp.GetAddress() == nil; i++ {
+		time.Sleep(time.Millisecond)
+	}
+	if cp.GetAddress() == nil {
+		return nil
+	}
+	var mu sync.Mutex
+	var fail *ev.Failure
+	delivered := 0
+	stop, done := make(chan struct{}), make(chan struct{})
+	const nrec = 1500
+	go func() {
+		defer close(done)
+		for {
+			select {
+			case m := <-cp.GetMsgChan():
+				if m.GetSet().GetSetType() != entities.Data {
+					continue
+				}
+				recs := m.GetSet().GetRecords()
+				mu.Lock()
+				delivered++
+				if len(recs) != nrec && fail == nil {
+					fail = ev.Failf("a data set of %d records was delivered with %d records while its template was being re-announced by another exporter", nrec, len(recs))
+				}
+				for k, r := range recs {
+					els := r.GetOrderedElementList()
+					if fail == nil && len(els) != len(fields) {
+						fail = ev.Failf("record %d of a delivered data set has %d fields, %d were sent", k, len(els), len(fields))
+					}
+					for fi, f := range fields {
+						if fail == nil && f.Type == ref.TU64 && els[fi].GetUnsigned64Value() != uint64(k) {
+							fail = ev.Failf("record %d of a delivered data set carries counter %d, %d was sent", k, els[fi].GetUnsigned64Value(), k)
+						}
+					}
+				}
+				mu.Unlock()
+			case <-stop:
+				return
+			}
+		}
+	}()
+	defer func() { cp.Stop(); close(stop); <-done }()
+	h := ref.Header{Domain: 9, ExportTime: 1700000000}
+	tplMsg := ref.TemplateMessage(h, ref.Template{ID: 256, Fields: fields})
+	bad := ref.TemplateMessage(h, ref.Template{ID: 256, Fields: append(append([]ref.Field(nil), fields...), ref.Field{ID: 20001, Ent: 4242, Len: 4, Type: ref.TOctets})})
+	var recs [][]ref.Value
+	for k := 0; k < nrec; k++ {
+		var vals []ref.Value
+		for _, f := range fields {
+			switch {
+			case f.Type == ref.TString:
+				vals = append(vals, ref.Value{B: []byte("pod")})
+			case f.Type.IsBytes():
+				vals = append(vals, ref.Value{B: []byte{10, 0, byte(k >> 8), byte(k)}})
+			default:
+				vals = append(vals, ref.Value{U: uint64(k)})
+			}
+		}
+		recs = append(recs, vals)
+	}
+	dataMsg := ref.DataMessage(h, ref.Template{ID: 256, Fields: fields}, recs)
+	a, err := net.Dial("udp", cp.GetAddress().String())
+	if err != nil {
+		return nil
+	}
+	defer a.Close()
+	b, err := net.Dial("udp", cp.GetAddress().String())
+	if err != nil {
+		return nil
+	}
+	defer b.Close()
+	a.Write(tplMsg)
+	time.Sleep(5 * time.Millisecond)
+	var wg sync.WaitGroup
+	wg.Add(2)
+	go func() {
+		defer wg.Done()
+		for k := 0; k < rounds; k++ {
+			a.Write(dataMsg)
+			if k%8 == 7 {
+				time.Sleep(time.Millisecond)
+			}
+		}
+	}()
+	go func() {
+		defer wg.Done()
+		for k := 0; k < rounds; k++ {
+			b.Write(bad)
+			time.Sleep(200 * time.Microsecond)
+			b.Write(tplMsg)
+			time.Sleep(300 * time.Microsecond)
+		}
+	}()
+	wg.Wait()
+	time.Sleep(50 * time.Millisecond)
+	mu.Lock()
+	defer mu.Unlock()
+	return fail
+}
+
 func TestC12(t *testing.T) {
+	if ev.Shard() <= 1 {
+		rounds := 300
+		if rec.Thorough() {
+			rounds = 3000
+		}
+		var f *ev.Failure
+		ok := t.Run("shared_domain", func(t *testing.T) {
+			f = runShared(rounds)
+			rec.Case(ev.Hash([]any{"shared_domain", rounds}), true, "two_exporters_share_domain_and_template_id")
+			if f != nil {
+				rec.Violation("shared_domain", rounds, f.Msg)
+				t.Errorf("%s", f.Msg)
+			}
+		})
+		if !ok && f == nil {
+			rec.Violation("race_shared_domain", rounds, "the race detector reported a data race in the shared-domain scenario (two udp exporters, one template id; the report is in the check's output)")
+		}
+		if !ok {
+			return
+		}
+	}
 	// every run: Stop after a Start that failed; many clients at once, in waves
 	if ev.Shard() <= 1 {
 		for _, c := range []FailStart{{"tcp", "address_in_use"}, {"udp", "address_in_use"}, {"tls", "address_in_use"}, {"tls", "bad_certificate"}} {
